@@ -41,7 +41,7 @@ import (
 //	sets    ns/name:uid:sel;...   the set informer's cache.  sel: N nil selector | B unknown operator | V operator In without
 //	        values | I matchLabels with an invalid value | M<k=v,...> matchLabels (M alone = the empty selector)
 //	ev      add | upd | del | tomb (DeletedFinalStateUnknown{pod}) | tombbad (tombstone wrapping a non-pod) | delbad (neither)
-//	        | sadd:ns/name | supd:ns/name:<status.replicas changed 0/1> | sdel:ns/name | stomb:ns/name (set delete as a tombstone)
+//	        | sadd:ns/name | supd:ns/name:<mask 0..63: 1 status.replicas changed, 2 old paused, 4 new paused, 8 generation moved, 16 spec.replicas changed, 32 delete-slots changed> | sdel:ns/name | stomb:ns/name (set delete as a tombstone)
 //	labels  ~ (nil map) | k=v,k=v (empty = empty map)
 //	owners  K/name/uid/c/x,...   K: S StatefulSet | R ReplicaSet | s statefulset ; c: controller flag n nil | f false | t true ;
 //	        x: 0 apiVersion apps.pingcap.com/v1 | 1 apiVersion apps/v1 (only reflect.DeepEqual sees it)
@@ -489,9 +489,38 @@ func runEventsHandler(fx *evFixture, q *recQueue, f []string) string {
 				panic("bad event " + f[2])
 			}
 			old := evSet(sns, sname, "u-ev")
-			if ev[2] == "1" {
+			// the shapes of the update, a bit mask: 1 status.replicas changed, 2 the OLD object carries the pause annotation,
+			// 4 the NEW one does, 8 the generation moved, 16 spec.replicas changed, 32 the delete-slots annotation changed
+			// (every one of them is "a change to a set": the key must be enqueued whatever the mask)
+			m, err := strconv.Atoi(ev[2])
+			if err != nil || m < 0 || m > 63 || strconv.Itoa(m) != ev[2] {
+				panic("bad event " + f[2])
+			}
+			if m&1 != 0 {
 				old.Status.Replicas, set.Status.Replicas = 1, 2
 			}
+			if m&2 != 0 {
+				old.Annotations = map[string]string{helper.PausedReconcileAnn: "true"}
+			}
+			if m&4 != 0 {
+				set.Annotations = map[string]string{helper.PausedReconcileAnn: "true"}
+			}
+			old.Generation, set.Generation = 3, 3
+			old.Status.ObservedGeneration, set.Status.ObservedGeneration = 3, 3
+			if m&8 != 0 {
+				set.Generation = 4
+			}
+			if m&16 != 0 {
+				two, five := int32(2), int32(5)
+				old.Spec.Replicas, set.Spec.Replicas = &two, &five
+			}
+			if m&32 != 0 {
+				if set.Annotations == nil {
+					set.Annotations = map[string]string{}
+				}
+				set.Annotations[helper.DeleteSlotsAnn] = "[1]"
+			}
+			old.ResourceVersion, set.ResourceVersion = "7", "8"
 			fx.setH.OnUpdate(old, set)
 		}
 	default:
@@ -690,7 +719,7 @@ func genEvHandler(rng *rand.Rand) string {
 		case 0:
 			ev = "sadd:" + key
 		case 1:
-			ev = "supd:" + key + ":" + strconv.Itoa(rng.Intn(2))
+			ev = "supd:" + key + ":" + strconv.Itoa(rng.Intn(64))
 		case 2:
 			ev = "sdel:" + key
 		default:
@@ -829,8 +858,9 @@ func enumEvents(scope string, emit func(string)) {
 		line("delbad", "k=x", "S/a/u1/t/0", "2", "0", "~", "", "0")
 		for _, key := range []string{"n1/a", "n1/z"} {
 			line("sadd:"+key, "~", "", "2", "0", "~", "", "0")
-			line("supd:"+key+":0", "~", "", "2", "0", "~", "", "0")
-			line("supd:"+key+":1", "~", "", "2", "0", "~", "", "0")
+			for m := 0; m < 64; m++ {
+				line("supd:"+key+":"+strconv.Itoa(m), "~", "", "2", "0", "~", "", "0")
+			}
 			line("sdel:"+key, "~", "", "2", "0", "~", "", "0")
 			line("stomb:"+key, "~", "", "2", "0", "~", "", "0")
 		}
